@@ -174,6 +174,35 @@ def run(prog, R):
             ok = len(pushes) == 2 and pushes[0][1][0] == ("field", ("arg", 1, "self"), lf.index("kind")) and pushes[0][1][1] == ("arg", 2, "kind") \
                 and pushes[1][1][0] == ("field", ("arg", 1, "self"), lf.index("start")) and deep_strip(pushes[1][1][1]) == ("cast", "u32", ("arg", 3, "offset"))
         R.ob("C14.4-lexedstr-push", "kind and start pushed together", ok, lpush.at, "")
+    # the conversion loop of LexedStr::new runs until the token iterator is exhausted: its only exit is the `None`
+    # branch of next() (an early exit would end the token table before the end of the input)
+    ln = R.anchor(prog, "oq3_parser::lexed_str::LexedStr::new")
+    if ln:
+        succ = ln.succ()
+        okx, det = False, "no loop driven by Iterator::next found"
+        for comp in ln.sccs():
+            comp = set(comp)
+            if all(ln.blocks[x].cleanup for x in comp):
+                continue
+            nxt = [x for x in comp if ln.blocks[x].term["k"] == "call" and (ln.callee_of(ln.blocks[x].term) or "").endswith("::next")]
+            if not nxt:
+                continue
+            exits = sorted({(x, y) for x in comp for y in succ[x] if y not in comp and not ln.blocks[y].cleanup and ln.blocks[x].term["k"] not in ("call", "assert", "drop") or (y not in comp and not ln.blocks[y].cleanup and ln.blocks[x].term["k"] == "switch")})
+            # blocks whose switch tests the discriminant of the value returned by next()
+            nxt_dest = {ln.blocks[x].term["dest"]["l"] for x in nxt if ln.blocks[x].term.get("dest")}
+            def tests_next(bx):
+                t_ = ln.blocks[bx].term
+                if t_["k"] != "switch":
+                    return False
+                for st_ in ln.blocks[bx].stmts:
+                    if st_["k"] == "assign" and st_["rv"]["k"] == "discr" and st_["rv"]["pl"]["l"] in nxt_dest:
+                        return True
+                return False
+            bad_exits = [(x, y) for x, y in exits if not tests_next(x)]
+            okx = bool(exits) and not bad_exits
+            det = f"{len(exits)} exit edge(s) of the token loop, all on the discriminant of next()" if okx else f"the token loop can be left at {[ln.blocks[x].term['at'] for x, y in bad_exits][:3]} before the iterator is exhausted"
+            break
+        R.ob("C14.4-conversion-loop-exhaustive", "LexedStr::new converts every token of the stream", okx, ln.at, det)
     fe = R.anchor(prog, "oq3_parser::lexed_str::Converter::finalize_with_eof")
     if fe:
         ps = [p for p in SymExec(prog, fe).paths() if "__diverged__" not in p.env]
